@@ -485,6 +485,10 @@ namespace mfuse
         if (numelements > maxobjects) Resize(numelements);
 
         const size_t startNum = numobjects;
+        for (size_t i = numelements; i < startNum; ++i) {
+            // shrinking: the elements that are cut off end their life here
+            objlist[i].~Type();
+        }
         numobjects = numelements;
         for (size_t i = startNum; i < numobjects; ++i) {
             new(objlist + i) Type();
